@@ -97,16 +97,17 @@ Fixpoint dump (t : ty) (v : pv) {struct t} : option pv :=
       then Some v
       else
         (* dispatch on the runtime class; the chosen case's own dumper is applied *)
-        (fix pick (cands : list ty) {struct cands} : option pv :=
-           match cands with
-           | [] => None
-           | t1 :: r =>
-               match dispatch (mro (class_of v)) (case_table ts) with
-               | Some tsel => if (match case_class t1, case_class tsel with
-                                  | Some a, Some b => Nat.eqb a b | _, _ => false end)
-                              then dump t1 v else pick r
-               | None => None
-               end
-           end) ts
+        match dispatch (mro (class_of v)) (case_table ts) with
+        | None => None
+        | Some tsel =>
+            (fix pick (cands : list ty) {struct cands} : option pv :=
+               match cands with
+               | [] => None
+               | t1 :: r =>
+                   if (match case_class t1, case_class tsel with
+                       | Some a, Some b => Nat.eqb a b | _, _ => false end)
+                   then dump t1 v else pick r
+               end) ts
+        end
   end.
 End D.
